@@ -303,6 +303,13 @@ def handleMachine (st : DState) (ws : List String) : Option (DState × String) :
     let delta ← parseHex? delta
     let v := st.m.regs.get sr + BitVec.ofNat 64 delta
     pure ({ st with m := { st.m with regs := st.m.regs.set d v } }, "ok " ++ toHex v.toNat)
+  | ["ldregq", r, a] => do
+    let i ← findIdx? gprNames64 r 16
+    let a ← parseHex? a
+    match memReadN st.m.mem 8 a with
+    | .ok v => pure ({ st with m := { st.m with regs := st.m.regs.set i (BitVec.ofNat 64 v) } }, "ok")
+    | .err => pure (st, "err")
+    | .panic => pure (st, "panic")
   | ["ldreg", r, a] => do
     let i ← findIdx? gprNames64 r 16
     let a ← parseHex? a
